@@ -186,28 +186,7 @@ def unresolved_cycles(g):
     return res
 
 
-def nonuniform_graph(g):
-    """D7 class: two paths between the same pair with different cutoffs."""
-    pl = g["placement"]
-    n = len(pl)
-    INF = 10 ** 6
-    lo = [[INF] * n for _ in range(n)]
-    hi = [[0] * n for _ in range(n)]
-    for c in g["conns"]:
-        cut = common_len(pl[c["src"]], pl[c["dst"]]) + 1
-        if c["kind"] == "weak" and cut == 1:
-            continue
-        a, b = c["src"], c["dst"]
-        lo[a][b] = min(lo[a][b], cut)
-        hi[a][b] = max(hi[a][b], cut)
-    for _ in range(n + 1):
-        for k in range(n):
-            for i in range(n):
-                for j in range(n):
-                    if lo[i][k] < INF and lo[k][j] < INF:
-                        lo[i][j] = min(lo[i][j], min(lo[i][k], lo[k][j]))
-                        hi[i][j] = max(hi[i][j], min(hi[i][k], hi[k][j]))
-    return any(lo[i][j] < INF and lo[i][j] != hi[i][j] for i in range(n) for j in range(n))
+from suites_world import nonuniform_graph  # noqa: E402
 
 
 def monitor_c06(suite) -> tuple[list, int]:
